@@ -93,6 +93,9 @@ func (it *Interp) rekeyForRealHash(m smt.Model) {
 			mask = c
 		}
 	}
+	if it.params["cfgsweep"] >= 1 && mask < 3 {
+		mask = 3 // the configuration sweep draws ShardNum from {1, 3}
+	}
 	if mask == 0 {
 		return // one shard everywhere: placement is irrelevant
 	}
